@@ -500,6 +500,18 @@ static void group_case(FILE *out, vf::Rng &rng, int nobj, int ngroups, bool exha
     std::string before, jin, jout = "{\"t\":\"none\"}", after;
     proj(arr, before);
     jdoc(arr, jin);
+    // the slot layout of every record as the public API shows it: key ids in slot order, 0 for the slot a removed member left behind
+    std::string slots = "[";
+    for (SizeT i = 0; i < arr.Size(); ++i) {
+        const V *o = arr.GetValue(i);
+        slots += (i ? ",[" : "[");
+        for (SizeT sl = 0; o != nullptr && sl < o->Size(); ++sl) {
+            const Str *k = o->GetKey(sl);
+            slots += (sl ? "," : "") + std::to_string(k == nullptr ? 0L : key_id(*k));
+        }
+        slots += "]";
+    }
+    slots += "]";
     V    grouped;
     bool ok = arr.GroupBy(grouped, key_text(G).c_str());
     proj(arr, after);
@@ -524,8 +536,8 @@ static void group_case(FILE *out, vf::Rng &rng, int nobj, int ngroups, bool exha
         }
         jout += "]";
     }
-    fprintf(out, "{\"k\":\"group\",\"g\":%ld,\"in\":%s,\"ok\":%d,\"out\":%s,\"unchanged\":%d}\n", G, jin.c_str(), ok ? 1 : 0, ok ? jout.c_str() : "[]",
-            before == after ? 1 : 0);
+    fprintf(out, "{\"k\":\"group\",\"g\":%ld,\"in\":%s,\"slots\":%s,\"ok\":%d,\"out\":%s,\"unchanged\":%d}\n", G, jin.c_str(), slots.c_str(), ok ? 1 : 0,
+            ok ? jout.c_str() : "[]", before == after ? 1 : 0);
 }
 
 int main(int argc, char **argv) {
